@@ -224,6 +224,13 @@ def gen_scenarios(rng, tier):
         return ["cgopen m adf", "zn %d" % n, "sol Sol2", "field Pressure %d" % rng.randint(1, 99), "cgdelsol Sol1",
                 "desc Info2 world", "cgdeldesc Info", "cgclose"]
 
+    # regression corpus: the witness of the defect repaired by /repo cdc1612 + 40a004d (ADF_Write_All_Data / Write_Block_Data /
+    # Write_Data did not test the status of ADFI_write_data_chunk_table when rewritten data outgrow the node's single chunk:
+    # EIO on lseek #127, inside the `wr` operation, was lost).  Every hard fault inside the `wr` operation is run in BOTH tiers.
+    out.append({"name": "corpus-adf-chunk-table", "level": "cgio", "backend": "adf", "prep": None, "exhaustive_ops": ("wr ",),
+                "script": ["open w adf", "new / N0 Lab0_t I4 200 133", "new /N0 N1 Lab1_t I4 200 46", "new / N2 Lab2_t C1 7 697",
+                           "new / N3 Lab3_t R8 33 432", "new / N4 Lab4_t C1 200 436", "new /N0 N5 Lab5_t I4 7 988",
+                           "wr /N0 I4 900 183", "setlabel /N0/N5 Relabel_t", "close"]})
     for fmt in ("adf", "hdf5"):
         w, names = cgio_write(rng, fmt)
         out.append({"name": "cgio-write-" + fmt, "level": "cgio", "backend": fmt, "prep": None, "script": w})
@@ -318,7 +325,6 @@ KNOWN_HDF5_COMPRESS = "hdf5-compress-enospc-crash-on-next-open"
 
 KNOWN_HDF5_CLOSE = "hdf5-write-failure-crash-inside-libhdf5"
 KNOWN_HDF5_SILENT = "hdf5-dataset-close-status-ignored-silent-data-loss"
-KNOWN_ADF_DCT = "adf-write-all-data-chunk-table-status-unchecked"
 
 
 def classify(sc, r, planned=()):
@@ -338,12 +344,6 @@ def classify(sc, r, planned=()):
     # into a pwrite, every API status 0, content differs
     if sc["backend"] == "hdf5" and hard and inj_names == {"pwrite"} and r["problem"] == "silent":
         return KNOWN_HDF5_SILENT
-    # ADF_Write_All_Data (ADF_interface.c:3428) does not test the status of ADFI_write_data_chunk_table when new data outgrow
-    # the node's single chunk: ADF back end, a hard error injected INSIDE a "wr" operation (cgio_write_all_data on a node
-    # that already has data), every status 0, content differs
-    if sc["backend"] == "adf" and hard and r["problem"] == "silent" and r.get("fault_ops") and \
-            all(o.startswith("wr ") for o in r["fault_ops"]):
-        return KNOWN_ADF_DCT
     return None
 
 
@@ -476,6 +476,8 @@ def run(ck):
                 v = byname[key]
                 pick += [v[0], v[-1]] + ck.rng.sample(v, min(2, len(v)))
             pick += cand[:14]
+            pick += [(k, kind) for k, kind in cand if kind in ("eio", "enospc") and
+                     any((opmap(k) or "").startswith(pre) for pre in sc.get("exhaustive_ops", ()))]
             pick = sorted(set(pick))
         jobs = [[p] for p in pick]
         if big:
